@@ -133,7 +133,7 @@ theorem push_at_end (hf : HashFn α H) (h : Handle α H) (hsz : h.size = h.be.ha
 end Handle
 
 /-- `pushAll` over an appended list -/
-theorem pushAll_append (hf : HashFn α H) : ∀ (xs ys : List α) (hs : List H),
+theorem pushAll_app (hf : HashFn α H) : ∀ (xs ys : List α) (hs : List H),
     pushAll hf hs (xs ++ ys) = match pushAll hf hs xs with
       | none => none
       | some hs' => pushAll hf hs' ys
@@ -142,7 +142,7 @@ theorem pushAll_append (hf : HashFn α H) : ∀ (xs ys : List α) (hs : List H),
     simp only [List.cons_append, pushAll]
     cases push hf hs x with
     | none => rfl
-    | some hs' => exact pushAll_append hf xs ys hs'
+    | some hs' => exact pushAll_app hf xs ys hs'
 
 theorem pushAll_singleton (hf : HashFn α H) (hs : List H) (e : α) :
     pushAll hf hs [e] = push hf hs e := by
